@@ -491,6 +491,11 @@ class Program:
                     if m2:
                         ty = m2.group(1)
                         break
+                    if re.match(r"\s*(?:pub(?:\([^)]*\))?\s+)?(?:struct|enum)\s+\$\w+", lines[k]):
+                        # derive inside macro_rules! (`pub struct $name(String);`): Self type from the method's signature
+                        ty = self._self_ty_from_header(self.funcs[name])
+                        trait = trait.split("::")[-1]
+                        break
             if ty:
                 self.impl_index[(ty, trait, meth)] = name
 
